@@ -93,6 +93,7 @@ type lcUpd struct {
 	name   string
 	cl     *lcClient
 	commit func()
+	height uint64 // revision height of the offered header (0: not recorded)
 }
 
 type lcProp struct {
@@ -686,7 +687,11 @@ func (w *lcWorld) opUpdate(op kernel.Op) {
 	if err != nil {
 		return
 	}
-	w.mempool = append(w.mempool, &lcTx{kind: "update", signer: signer, msgs: []sdk.Msg{msg}, upd: &lcUpd{name: name, cl: cl},
+	offered := uint64(0)
+	if hh, isH := hdr.GetHeight().(clienttypes.Height); isH {
+		offered = hh.RevisionHeight
+	}
+	w.mempool = append(w.mempool, &lcTx{kind: "update", signer: signer, msgs: []sdk.Msg{msg}, upd: &lcUpd{name: name, cl: cl, height: offered},
 		desc: fmt.Sprintf("update %s (%s) to %v", name, cl.kind, hdr.GetHeight())})
 }
 
@@ -764,6 +769,12 @@ func (w *lcWorld) block(n int) {
 				}
 			} else if !cl.valid {
 				w.rec.Probe("update.rejected_degenerate_client")
+			} else if cs, found := w.host.App.XIBCKeeper.ClientKeeper.GetClientState(w.host.ReadCtx(), tx.upd.name); cl.kind == "bsc" && found && tx.upd.height != 0 &&
+				tx.upd.height != cs.GetLatestHeight().GetRevisionHeight()+1 {
+				// a Parlia header is valid for the client only as the direct successor of its head: governance
+				// re-anchored the client between the relayer's reading of the head and this transaction (the
+				// stub's replay queue was built for the earlier anchor) - the relayer is out of step, not the client
+				w.rec.Probe("update.bsc_relayer_out_of_step")
 			} else {
 				w.rec.Violate("C18", "valid_update_rejected", cl.kind, "valid header from the authorised account rejected for the %s client %s: %s", cl.kind, tx.upd.name, firstLine(res.Log))
 				if !mapsEqual(pre, w.clientPrefix(tx.upd.name)) {
